@@ -24,6 +24,7 @@ type inode struct {
 	mode    uint32 // permission bits
 	isDir   bool
 	special bool
+	link    string // symbolic link: the path it points to
 }
 
 type openFile struct {
@@ -197,6 +198,9 @@ func (fs *fsModel) fileInfo(name string, ino *inode) Value {
 	if ino.special {
 		mode |= 1 << 26 // ModeDevice
 	}
+	if ino.link != "" {
+		mode |= 1 << 27 // ModeSymlink
+	}
 	in.structField(l, "mode").V = c.BV(mode, 32)
 	sys := in.structField(l, "sys")
 	in.structField(sys, "Dev").V = c.BV(1, 64)
@@ -216,7 +220,7 @@ func (fs *fsModel) open(name string, flag int, perm uint32) (Value, Value) {
 		oTRUNC  = 0x200
 		oAPPEND = 0x400
 	)
-	ino := fs.names[name]
+	name, ino := fs.resolve(name)
 	if fs.fault("open") {
 		return (*Loc)(nil), in.pathError("open", name, eIO)
 	}
@@ -242,6 +246,19 @@ func (fs *fsModel) open(name string, flag int, perm uint32) (Value, Value) {
 	of.rd = acc == 0 || acc == oRDWR
 	of.wr = acc == oWRONLY || acc == oRDWR
 	return fs.newFileValue(of), nilError()
+}
+
+// resolve follows symbolic links (as open, stat, chmod, truncate do; lstat,
+// unlink and rename act on the link itself).
+func (fs *fsModel) resolve(name string) (string, *inode) {
+	for i := 0; i < 8; i++ {
+		ino := fs.names[name]
+		if ino == nil || ino.link == "" {
+			return name, ino
+		}
+		name = ino.link
+	}
+	return name, nil
 }
 
 func (fs *fsModel) sortedNames() []string {
@@ -486,19 +503,24 @@ func registerOS(e *Engine) {
 	}
 	I["(*os.File).readFrom"] = notHandled
 	I["(*os.File).writeTo"] = notHandled
-	stat := func(in *Interp, fn *ssa.Function, a []Value) Value {
-		name := cs(in, a[0], "stat name")
-		ino := in.fs.names[name]
-		if ino == nil {
-			return TupleV{IfaceV{}, in.pathError("stat", name, eNOENT)}
+	statFn := func(follow bool) intrinsicFn {
+		return func(in *Interp, fn *ssa.Function, a []Value) Value {
+			name := cs(in, a[0], "stat name")
+			ino := in.fs.names[name]
+			if follow {
+				_, ino = in.fs.resolve(name)
+			}
+			if ino == nil {
+				return TupleV{IfaceV{}, in.pathError("stat", name, eNOENT)}
+			}
+			if in.fs.fault("stat") {
+				return TupleV{IfaceV{}, in.pathError("stat", name, eIO)}
+			}
+			return TupleV{in.fs.fileInfo(name, ino), nilError()}
 		}
-		if in.fs.fault("stat") {
-			return TupleV{IfaceV{}, in.pathError("stat", name, eIO)}
-		}
-		return TupleV{in.fs.fileInfo(name, ino), nilError()}
 	}
-	I["os.Stat"] = stat
-	I["os.Lstat"] = stat
+	I["os.Stat"] = statFn(true)
+	I["os.Lstat"] = statFn(false)
 	I["os.Remove"] = func(in *Interp, fn *ssa.Function, a []Value) Value {
 		name := cs(in, a[0], "remove name")
 		ino := in.fs.names[name]
@@ -537,7 +559,7 @@ func registerOS(e *Engine) {
 	}
 	I["os.Chmod"] = func(in *Interp, fn *ssa.Function, a []Value) Value {
 		name := cs(in, a[0], "chmod name")
-		ino := in.fs.names[name]
+		_, ino := in.fs.resolve(name)
 		if ino == nil {
 			return in.pathError("chmod", name, eNOENT)
 		}
@@ -568,9 +590,20 @@ func registerOS(e *Engine) {
 		in.fs.names[to] = ino
 		return TupleV{}
 	}
+	H["vhFSSymlink"] = func(in *Interp, fn *ssa.Function, a []Value) Value {
+		target, link := cs(in, a[0], "symlink target"), cs(in, a[1], "symlink name")
+		ino := in.fs.newInode()
+		ino.link = target
+		in.fs.names[link] = ino
+		return TupleV{}
+	}
+	H["vhFSIsSymlink"] = func(in *Interp, fn *ssa.Function, a []Value) Value {
+		ino := in.fs.names[cs(in, a[0], "vhFSIsSymlink")]
+		return in.ctx.Bool(ino != nil && ino.link != "")
+	}
 	H["vhFSGet"] = func(in *Interp, fn *ssa.Function, a []Value) Value {
 		name := cs(in, a[0], "vhFSGet name")
-		ino := in.fs.names[name]
+		_, ino := in.fs.resolve(name)
 		if ino == nil {
 			return TupleV{SliceV{Nil: true}, in.ctx.False}
 		}
